@@ -21,7 +21,7 @@ use std::time::Duration;
 pub static INFO: PropInfo = PropInfo {
     id: "C19",
     level: "exploration",
-    rule: "one evaluation = one datagram handed to NetcodeServer::process_packet from an address that has no connected session at that moment (unknown or half-open), in a server that is empty, partly filled or full. Generators: valid requests (exact 1078 bytes, padded up to 1400, arbitrary unused prefix nibble, repeated, replayed from other addresses), truncated / bit-flipped / single-field-corrupted requests, requests with expired, foreign-key, foreign-protocol or wrong-host tokens, valid responses (built from the challenge the server issued), responses with corrupted or foreign challenge blobs, under a wrong key, from addresses without a half-open session, replayed after use, other sealed packet kinds, short and random strings; virtual time advances so that tokens expire. The harness minted every token and opens every challenge, so validity comes from its own ledger: valid token = the 1077 bytes after the prefix equal the request of a ledger token minted for this server (key, protocol, host list) and floor(server time) < expiry; valid response = opens as a Response under the client-to-server key of a ledger token and carries a (sequence, blob) pair this server instance issued. Oracle on the returned ServerResult: at most the one datagram of the result, addressed to the source, strictly shorter than the input, and none at all unless the input carried a valid token or a valid response. Non-trivial = the datagram came from an address without a connected session; distinct = (server fill state, generator, datagram hash).",
+    rule: "one evaluation = one datagram handed to NetcodeServer::process_packet from an address that has no connected session at that moment (unknown or half-open), in a server that is empty, partly filled or full. Generators: valid requests (exact 1078 bytes, padded up to 1400, arbitrary unused prefix nibble, repeated, replayed from other addresses), truncated / bit-flipped / single-field-corrupted requests, requests with expired, foreign-key, foreign-protocol or wrong-host tokens (host lists one port or one address bit away from the server's own, or its IPv4-mapped form with another port), valid responses (built from the challenge the server issued), responses with corrupted or foreign challenge blobs, under a wrong key, from addresses without a half-open session, replayed after use, other sealed packet kinds, short and random strings; virtual time advances so that tokens expire. The harness minted every token and opens every challenge, so validity comes from its own ledger: valid token = the 1077 bytes after the prefix equal the request of a ledger token minted for this server (key, protocol, host list) and floor(server time) < expiry; valid response = opens as a Response under the client-to-server key of a ledger token and carries a (sequence, blob) pair this server instance issued. Oracle on the returned ServerResult: at most the one datagram of the result, addressed to the source, strictly shorter than the input, and none at all unless the input carried a valid token or a valid response. Non-trivial = the datagram came from an address without a connected session; distinct = (server fill state, generator, datagram hash).",
     assumptions: &[
         "a ServerResult carries at most one datagram; further output could only come from update_client, which is polled after a sample of the inputs",
         "a panic (C07's business) ends the run without a C19 verdict for that datagram",
@@ -332,7 +332,11 @@ fn episode_inner(ctx: &Ctx, out: &mut Outcome, run_seed: u64, rr: &mut Rng, budg
                         let fp = protocol ^ (1u64 << r.below(64));
                         (nsim::mint(&mut r, now_s, fp, 600, id, 15, &srv.addrs, None, &srv.key), "foreign-protocol-token")
                     }
-                    _ => (nsim::mint(&mut r, now_s, protocol, 600, id, 15, &[nsim::addr4(250, 1, 1)], None, &srv.key), "wrong-host-token"),
+                    _ => {
+                        // hosts close to the server's own: same IP other port, neighbouring IP same port, ...
+                        let hosts = super::netcode_util::near_hosts(&mut r, &srv.addrs);
+                        (nsim::mint(&mut r, now_s, protocol, 600, id, 15, &hosts, None, &srv.key), "wrong-host-token")
+                    }
                 };
                 let mut d = request_of(&m);
                 if r.chance(1, 3) {
